@@ -505,6 +505,132 @@ def value_test_edges(body, call_bb, value):
     return yes
 
 
+def nonblocking_on_value(facts):
+    """the value of set_nonblocking's mode parameter that *sets* O_NONBLOCK (`true`, or the variant of a small enum that
+    replaced the bool): the value whose edge of the test of that parameter leads to the `| NONBLOCK` / `set(.., true)` /
+    `insert` side. Returns a payload_value-style tuple, or None"""
+    sn = facts.body("io::set_nonblocking")
+    if sn is None:
+        return None
+    setters = [cs for cs in sn.calls() if not sn.is_cleanup(cs.bb) and cs.name in ("bitor", "insert", "union")]
+    if not setters:
+        # `flags.set(NONBLOCK, on)`: the boolean itself is handed on
+        if any(cs.name == "set" and not sn.is_cleanup(cs.bb) and len(cs.args) > 2 and T.resolves_to_arg(sn, cs.args[2], 2) for cs in sn.calls()):
+            return ("const", 1)
+        return None
+    for sw, blk in enumerate(sn.blocks):
+        t = blk["term"]
+        if t["t"] != "switch" or sn.is_cleanup(sw):
+            continue
+        e = sn.expr(t["on"])
+        neg = False
+        while e[0] == "not":
+            neg = not neg
+            e = e[1]
+        if e[0] == "place" and any(r == ("arg", 2) and not p for r, p in sn.resolve(e[2])):
+            for val in (1, 0):
+                ed = T.edges_of_value(sn, sw, bool(val))
+                if all(T.reachable_only_via(sn, c.bb, ed) for c in setters):
+                    return ("const", val)
+        if e[0] == "discr" and any(r == ("arg", 2) and not p for r, p in sn.resolve(e[2])):
+            ty = facts.types[sn.local_ty(2)]
+            adt = ty.get("path")
+            for v, tgt in t["targets"]:
+                if all(T.reachable_only_via(sn, c.bb, [(sw, tgt)]) for c in setters):
+                    return ("discr", adt, v)
+    return None
+
+
+def eventfd_writer(facts):
+    """the function that adds to the ping eventfd's counter, found by its role: the local function of ping/eventfd.rs that
+    calls rustix's write() and takes the amount as a u64 (whatever its name and wherever its fd comes from).
+    Returns (body, index of the u64 parameter) or None"""
+    out = []
+    for b in list(facts.bodies.values()) + facts.dropped_helper_bodies():
+        if b.kind not in ("Fn", "AssocFn") or not b.file.endswith("ping/eventfd.rs"):
+            continue
+        if not any(cs.f and cs.f["path"].startswith("rustix::io::write") for cs in b.calls()):
+            continue
+        u = [i for i in range(1, b.arg_count + 1) if facts.types[b.local_ty(i)]["s"] == "u64"]
+        if len(u) == 1:
+            out.append((b, u[0]))
+    return out[0] if len(out) == 1 else None
+
+
+def eventfd_writes(facts, b):
+    """[(block, operand holding the amount)]: the places where body b adds to the eventfd counter — calls of the writer
+    function, or its body inlined (then the amount is what is serialised by to_ne_bytes)"""
+    w = eventfd_writer(facts)
+    out = []
+    if w is None:
+        return out
+    wb, idx = w
+    for cs in b.calls():
+        if not b.is_cleanup(cs.bb) and cs.callee_body() is wb and idx - 1 < len(cs.args):
+            out.append((cs.bb, cs.args[idx - 1]))
+    if wb.key in b.raw.get("inlined", []):
+        for cs in b.calls():
+            if not b.is_cleanup(cs.bb) and cs.name in ("to_ne_bytes", "to_le_bytes", "to_be_bytes") and cs.args:
+                out.append((cs.bb, cs.args[0]))
+    return out
+
+
+def callers_of_body(facts, body):
+    """call sites (in any body) that reach `body`: statically, or through a `dyn Trait` receiver it implements"""
+    out = []
+    for b in facts.bodies.values():
+        for cs in b.calls():
+            if b.is_cleanup(cs.bb):
+                continue
+            if cs.callee_body() is body or body in dyn_targets(cs):
+                out.append(cs)
+    return out
+
+
+def has_field_through_callers(facts, body, op, field):
+    """the operand reads `.field` of something — in this function, or, when the operand is one of the function's own
+    parameters, in every caller (a private function that takes `disp.fd` as a parameter instead of `disp`)"""
+    if T.path_has(body, op, field):
+        return True
+    args = {r[1] for r, p in body.resolve(op) if r[0] == "arg"}
+    if len(args) != 1 or any(r[0] != "arg" for r, p in body.resolve(op)):
+        return False
+    n = args.pop()
+    callers = callers_of_body(facts, body)
+    def caller_ok(cs):
+        if n - 1 >= len(cs.args):
+            return False
+        a = cs.args[n - 1]
+        if T.path_has(cs.body, a, field):
+            return True
+        # .. or the very value the caller stores into that field (it hands the callee what it has just recorded)
+        ra = cs.body.resolve(a)
+        for i, j, st in T.stores_to_field(cs.body, field[1:]):
+            if not cs.body.is_cleanup(i) and st["rv"]["r"] == "use" and cs.body.resolve(st["rv"]["o"]) == ra and cs.body.dominates(i, cs.bb):
+                return True
+        return False
+
+    return bool(callers) and all(caller_ok(cs) for cs in callers)
+
+
+def event_builder(facts):
+    """the function that builds the poller's `Event` for a registration, found by its role: a local function returning
+    polling::Event with one `sys::Interest` parameter and one token parameter (`sys::Token` or `token::TokenInner`), in
+    any order and under any name. Returns (body, interest parameter index, token parameter index, token is TokenInner)"""
+    out = []
+    for b in list(facts.bodies.values()) + facts.dropped_helper_bodies():
+        if b.kind not in ("Fn", "AssocFn") or b.arg_count != 2:
+            continue
+        tys = [facts.types[b.local_ty(i)]["s"] for i in range(3)]
+        if not tys[0].endswith("polling::Event"):
+            continue
+        ii = [i for i in (1, 2) if tys[i] == "sys::Interest"]
+        ti = [i for i in (1, 2) if tys[i] in ("sys::Token", "token::TokenInner")]
+        if len(ii) == 1 and len(ti) == 1:
+            out.append((b, ii[0], ti[0], tys[ti[0]] == "token::TokenInner"))
+    return out[0] if len(out) == 1 else None
+
+
 def mode_converter(facts):
     """the function translating calloop's Mode into the poller's PollMode, found by its role: a local function whose
     parameters are one `sys::Mode` and one `bool` (in either order) and whose return type is polling::PollMode.
@@ -520,6 +646,10 @@ def mode_converter(facts):
             out.append((b, 1, 2))
         elif tys[2] == "sys::Mode" and tys[1] == "bool":
             out.append((b, 2, 1))
+        elif tys[1] == "sys::Mode" and "Poller" in tys[2]:
+            out.append((b, 1, -2))  # asks the poller itself whether it supports other modes
+        elif tys[2] == "sys::Mode" and "Poller" in tys[1]:
+            out.append((b, 2, -1))
     return out[0] if len(out) == 1 else None
 
 
